@@ -3,7 +3,7 @@
 import json, os, shutil, sys, re
 prop, n = sys.argv[1], sys.argv[2]
 rnd = os.environ.get("ROUND", "1")
-src = f"/tmp/wt/{prop}-out" if rnd == "1" else f"/tmp/wt{rnd}/{prop}-out"
+src = os.environ.get("SRC", "/tmp/wt" if rnd == "1" else f"/tmp/wt{rnd}") + f"/{prop}-out"
 dst = f"/verif/seeded/{prop}-m{n}" if rnd == "1" else f"/verif/seeded/{prop}-r{rnd}m{n}"
 os.makedirs(dst, exist_ok=True)
 shutil.copy(f"{src}/m{n}.diff", f"{dst}/patch.diff")
